@@ -702,8 +702,16 @@ def wrapper_cases(ctx: Ctx, n: int):
             out = mw(x)[0]
             ga = models.GroupAverage(mw, [np.eye(2, dtype=int), np.diag([1, -1])], always_average=True)
             out2 = ga(x)[0]
+            # averaging over ALL of B_2 (its list ends with axis-swapping elements) around a model that keeps the
+            # metadata of what it is given: non-square extents and mixed flags must come back as they went in
+            class _Same(models.MultiImageModule):
+                def __call__(self, x, aux_data=None):
+                    return x, aux_data
+
+            out3 = models.GroupAverage(_Same(), geom.make_all_operators(D), always_average=True)(x)[0]
+            ctx.hist("wrapper", "GroupAverage/all-operators")
             ok = all((tuple(o.get_signature()), tuple(o.get_spatial_dims()), o.D, tuple(o.is_torus)) ==
-                     (tuple(sig), dims, D, flags) for o in (out, out2))
+                     (tuple(sig), dims, D, flags) for o in (out, out2, out3))
         except Exception as e:  # noqa: BLE001
             case["raised"] = repr(e)[:300]
             ok = False
